@@ -57,3 +57,10 @@ Definition run_adaptor_session (m : mode) (verify : bool) (tab : list (bytes * t
 Definition udp_scratch_ok : bool :=
   match gen_udp_scratch_blocking with Some n => Nat.leb (max_length Compressed) n | None => true end &&
   match gen_udp_scratch_tokio with Some n => Nat.leb (max_length Compressed) n | None => true end.
+
+(* ---- the async read future under polling and cancellation (C19) ---- *)
+Require Import Net.Async.
+Definition run_async (m : mode) (verify : bool) (tab : list (bytes * tpacket)) (rs : list arev) (ws : list wev)
+           (cancels : list bool) : list (out tpacket) :=
+  asession tpacket (tparse tab) t_ver_of t_is_keepalive gen_version m verify (pong_frame m)
+           (2 * (length tab + length rs + length ws) + 16) Top (init_state tpacket) rs ws cancels [].
